@@ -437,7 +437,7 @@ def inline_new_temporaries(fnode, base_names, stats):
         continue
       if len(fps) != 1 or not fps[0].startswith('=|') or not fps[0].endswith('|'):
         continue
-      if sum(1 for n in ast.walk(fnode) if isinstance(n, ast.Name) and n.id == nm and isinstance(n.ctx, (ast.Store, ast.Del))) != 1:
+      if sum(1 for n in ast.walk(fnode) if isinstance(n, ast.Name) and n.id == nm and isinstance(n.ctx, ast.Store)) != 1:
         continue     # (two definitions of the same shape have one fingerprint)
       # the single defining statement and its block
       S = blk = None
